@@ -436,7 +436,7 @@ example : ArgFits .nanargmin Rnanargmin := by decide +kernel
 example : ArgFits .nanargmax Rnanargmax1 := by decide +kernel
 
 /-- the generated table has the arg rows the tie theorem talks about (the tie is not vacuous) -/
-example : (Generated.initRows.filter argRowSelected).length = 64 := by decide +kernel
+example : (Generated.initRows.filter argRowSelected).length = 80 := by decide +kernel
 
 /-! #### ties across blocks: the same extreme in two blocks → the smallest global index -/
 
